@@ -12,7 +12,7 @@ struct Tok { int kind; long iv; double fv; int places; };
 #define MAX_INPUTS 20000
 static Tok g_toks[MAX_TOKS];
 static int g_ntoks = 0;
-struct In { char kind[16]; long key; long k; double v; };
+struct In { char kind[16]; long key; long k; double v; unsigned long long u; int exact; };
 static In g_in[MAX_INPUTS];
 static int g_nin = 0;
 struct Cnt { char kind[16]; long key; long n; };
@@ -27,21 +27,32 @@ static void load_inputs() {
   if (!p) return;
   FILE *f = fopen(p, "r");
   if (!f) return;
-  char kind[64]; long key, k; double v;
-  while (g_nin < MAX_INPUTS && fscanf(f, "%15s %ld %ld %lf", kind, &key, &k, &v) == 4) {
-    strcpy(g_in[g_nin].kind, kind); g_in[g_nin].key = key; g_in[g_nin].k = k; g_in[g_nin].v = v; ++g_nin;
+  char kind[64]; long key, k; char val[80];
+  while (g_nin < MAX_INPUTS && fscanf(f, "%15s %ld %ld %79s", kind, &key, &k, val) == 4) {
+    strcpy(g_in[g_nin].kind, kind); g_in[g_nin].key = key; g_in[g_nin].k = k; g_in[g_nin].v = strtod(val, 0);
+    // a value written without '.', 'e', "inf"/"nan" or sign is an exact unsigned integer (64-bit clock readings)
+    g_in[g_nin].exact = (strspn(val, "0123456789") == strlen(val));
+    g_in[g_nin].u = g_in[g_nin].exact ? strtoull(val, 0, 10) : 0ULL;
+    ++g_nin;
   }
   fclose(f);
 }
 
+static int g_last_exact = 0;
+static unsigned long long g_last_u = 0;
+
 static double next_input(const char *kind, long key, double dflt) {
   load_inputs();
+  g_last_exact = 0;
   long k = 0;
   int i;
   for (i = 0; i < g_ncnt; ++i) if (g_cnt[i].key == key && !strcmp(g_cnt[i].kind, kind)) break;
   if (i == g_ncnt) { strcpy(g_cnt[i].kind, kind); g_cnt[i].key = key; g_cnt[i].n = 0; ++g_ncnt; }
   k = g_cnt[i].n++;
-  for (int j = 0; j < g_nin; ++j) if (g_in[j].key == key && g_in[j].k == k && !strcmp(g_in[j].kind, kind)) return g_in[j].v;
+  for (int j = 0; j < g_nin; ++j) if (g_in[j].key == key && g_in[j].k == k && !strcmp(g_in[j].kind, kind)) {
+    g_last_exact = g_in[j].exact; g_last_u = g_in[j].u;
+    return g_in[j].v;
+  }
   return dflt;
 }
 
@@ -70,7 +81,7 @@ int analogRead(uint8_t pin) { int v = (int)next_input("aread", pin, 0); printf("
 static unsigned long g_clock = 0, g_pending = 0;
 unsigned long millis(void) {
   double d = next_input("millis", 0, -1.0);
-  unsigned long v = d < 0 ? g_clock + g_pending : (unsigned long)d;
+  unsigned long v = d < 0 ? g_clock + g_pending : (g_last_exact ? (unsigned long)g_last_u : (unsigned long)d);
   g_clock = v; g_pending = 0;
   printf("millis %lu\n", v);
   return v;
